@@ -55,20 +55,6 @@ def devNotAtomic : List (Name × DescArg) → Bool
   | [] => false
   | _ :: t => t.any (fun nd => (toPropertyDescriptor nd.2).isNone)
 
-/-- names enumerated by otto's for-in from an object on the chain although an earlier object on the
-    chain has a property of that name -/
-def shadowedOn (h : MHeap) : Nat → Option Addr → List Name → Bool
-  | 0, _, _ => false
-  | _ + 1, none, _ => false
-  | f + 1, some a, seen =>
-    match h[a]? with
-    | none => false
-    | some o => (enumerate o false).any (fun n => seen.contains n) || shadowedOn h f o.proto (seen ++ akeys o.props)
-
-/-- `Dev_forin_shadowed` -/
-def devForIn (h : MHeap) : Bool :=
-  (List.range h.length).any (fun a => shadowedOn h (fuel h) (some a) [])
-
 /-- `Dev_strict_ignored`: an assignment / delete in strict code that ES5 makes throw (the model's
     sloppy run of the same operation is refused) – otto has no strict mode. -/
 def devStrict (h : MHeap) : Op → Bool
@@ -87,7 +73,7 @@ def devStrict (h : MHeap) : Op → Bool
      | some o => match alookup n o.props with | some prop => !prop.configurable | none => false)
   | _ => false
 
-def devStep (h : MHeap) (op : Op) (h' : MHeap) : List String :=
+def devStep (h : MHeap) (op : Op) (_h' : MHeap) : List String :=
   let (g, a2d) : Bool × Bool :=
     match op with
     | .defn a n d =>
@@ -103,8 +89,7 @@ def devStep (h : MHeap) (op : Op) (h' : MHeap) : List String :=
   (if devStrict h op then ["strict_ignored"] else []) ++
   (if g then ["generic_loses_writable"] else []) ++
   (if a2d then ["acc_to_data_keeps_accessor"] else []) ++
-  (if na then ["defineProperties_not_atomic"] else []) ++
-  (if devForIn h' then ["forin_shadowed"] else [])
+  (if na then ["defineProperties_not_atomic"] else [])
 
 def devRun (h : MHeap) : List Op → List String
   | [] => []
